@@ -16,7 +16,8 @@ FAULT_FOCUS = {
     "C05": [],
     "C09": ["pool_range_asg", "pool_range_sus", "pool_range_asg"],
     "C10": ["sus_not_boundary", "sus_not_boundary", "sus_suspending", "sus_suspended", "sus_unknown",
-            "sus_other_pool", "sus_twice", "oversell_during_writeout", "oversell_during_writeout"],
+            "sus_other_pool", "sus_twice", "oversell_during_writeout", "oversell_during_writeout", "construct_suspending",
+            "construct_suspending"],
     "C11": [],
 }
 
